@@ -672,9 +672,10 @@ func (blockID *BlockID) Equal(other BlockID) bool {
 	return blockID.Hash.Equal(other.Hash) && blockID.PartsHeader.Equals(other.PartsHeader)
 }
 
-// Key returns a machine-readable string representation of the BlockID
+// Key returns a machine-readable string representation of the BlockID.
+// It covers every field compared by Equal, so that two ids have the same key iff they are equal.
 func (blockID *BlockID) Key() string {
-	return string(blockID.Hash.String() + blockID.PartsHeader.Hash.String())
+	return fmt.Sprintf("%s%s%d", blockID.Hash.String(), blockID.PartsHeader.Hash.String(), blockID.PartsHeader.Total)
 }
 
 // String returns the first 12 characters of hex string representation of the BlockID
